@@ -33,11 +33,11 @@ type Profile struct {
 	W map[string]int
 	// configuration space
 	AllowAsync, AllowCache, AllowCompress, AllowLower bool
-	ForceAsync                                       bool
-	ForceSync                                        bool
-	MaxIndexed, MaxUnique                            int
-	MinIndexed, MinUnique                            int
-	CasePaths                                        int // how many string paths may get upper/lower
+	ForceAsync                                        bool
+	ForceSync                                         bool
+	MaxIndexed, MaxUnique                             int
+	MinIndexed, MinUnique                             int
+	CasePaths                                         int // how many string paths may get upper/lower
 	// candidate paths for constraints (default: all castable)
 	ConsPaths []string
 	// value generation
@@ -50,7 +50,8 @@ type Profile struct {
 	LimitPct       int // percentage of queries with a limit (default 35)
 	IndexedLastPct int // percentage of queries forced to end on an indexed path
 	AndOnlyPct     int // percentage of chains that use And only
-	FixedCfg  *Config
+	BadQueryPct    int // percentage of queries made unevaluable on purpose
+	FixedCfg       *Config
 }
 
 // G carries the pools of values already used in the case, so that later ops
@@ -693,8 +694,86 @@ func (g *G) Op() Op {
 		op.Q = q
 	case "query":
 		op.Q = g.Query()
+	case "snapshot":
+		q := g.Query()
+		q.Limit, q.Reverse = nil, false
+		q.Consumer = pickU(g, []string{"collect", "assign"}, "snapconsumer")
+		op.Q = q
+		n := 1 + g.uni(6, "nsub")
+		burst := g.pct("burst") < 20 // many inserts: exceed the slice capacity
+		for i := 0; i < n; i++ {
+			kind := pickU(g, []string{"insert", "insert", "insert", "update", "update", "delete", "delete", "resurrect", "many"}, "subkind")
+			if burst {
+				kind = "insert"
+			}
+			sub := Op{Op: kind}
+			switch kind {
+			case "insert":
+				sub.D = g.Doc()
+				// land near the probe: copy the probe value into the queried field
+				if g.pct("near") < 60 {
+					l := q.Leaves[len(q.Leaves)-1]
+					if p := docPathIndex[l.Path]; p.Class != ClsNone && l.Op != "~=" {
+						setLeaf(sub.D, p, g.Val(p))
+					}
+				}
+			case "update":
+				sub.Ref = g.uni(64, "ref")
+				l := q.Leaves[len(q.Leaves)-1]
+				if p := docPathIndex[l.Path]; p.Class != ClsNone {
+					sub.Sets = []FieldSet{{Path: p.Path, V: g.Val(p)}}
+				} else {
+					sub.Sets = g.Sets()
+				}
+			case "delete", "resurrect":
+				sub.Ref = g.uni(64, "ref")
+			case "many":
+				sub.Items = g.Items(4)
+			}
+			op.Sub = append(op.Sub, sub)
+		}
+	}
+	if g.p.BadQueryPct > 0 && op.Q != nil && g.pct("badq") < g.p.BadQueryPct {
+		g.spoil(op.Q)
 	}
 	return op
+}
+
+// spoil turns a query into one that cannot be evaluated (C12/C19): mistyped
+// probe, invalid pattern, unknown operator or unknown field.
+func (g *G) spoil(q *Query) {
+	l := &q.Leaves[g.uni(len(q.Leaves), "spoilleaf")]
+	p := docPathIndex[l.Path]
+	switch g.uni(4, "spoilkind") {
+	case 0: // probe of another class
+		switch p.Class {
+		case ClsStr:
+			l.V = Val{K: "i", I: 1}
+		case ClsInt:
+			l.V = Val{K: "s", S: "1"}
+		case ClsUint:
+			l.V = Val{K: "i", I: 1}
+		default:
+			l.V = Val{K: "u", U: 1}
+		}
+		if l.Op == "~=" {
+			l.Op = "="
+		}
+	case 1: // invalid pattern
+		if p.Class == ClsStr {
+			l.Op = "~="
+			l.V = Val{K: "s", S: pickU(g, []string{"(", "[a", "a{2,1}", "*a", "\\"}, "badregex")}
+		} else {
+			l.V = Val{K: "f", F: 0.5}
+			if p.Class == ClsFloat {
+				l.V = Val{K: "s", S: "x"}
+			}
+		}
+	case 2:
+		l.Op = pickU(g, []string{"==", "<>", "", "like", "=~", "≥"}, "badop")
+	case 3:
+		l.Path = pickU(g, []string{"Nope", "S.X", "", "In.", ".S", "In.Nope", "Pt.Nope.X"}, "badpath")
+	}
 }
 
 func (g *G) Program() *Program {
